@@ -187,6 +187,27 @@ pub fn fixed(k: Kind, n: usize) -> Vec<Vec<u64>> {
         let mut v: Vec<u64> = (0..n).map(|i| base[i % base.len()].wrapping_add((i / base.len()) as u64 * 2)).collect();
         repair_distinct(&mut v, k.bits);
         out.push(v);
+        // values that compare equal to an identity (matrix, affine, quaternion) but carry negative zeros in a few fixed patterns:
+        // a deserialiser that recognises "the identity" by == would lose the signs
+        let one: u64 = if k.bits == 32 { 1f32.to_bits() as u64 } else { 1f64.to_bits() };
+        let mut shapes: Vec<Vec<u64>> = vec![];
+        let d = match n {
+            4 | 6 => 2,
+            9 | 12 => 3,
+            16 => 4,
+            _ => 0,
+        };
+        if d > 0 {
+            shapes.push((0..n).map(|i| if i / d == i % d && i / d < d { one } else { 0 }).collect());
+        }
+        if n == 4 {
+            shapes.push(vec![0, 0, 0, one]);
+        }
+        for sh0 in shapes {
+            for pat in [0u64, u64::MAX, 0x5555_5555_5555_5555, 0xaaaa_aaaa_aaaa_aaaa, 0x9e37_79b9_7f4a_7c15, 0x0f0f_3c3c_a5a5_9669, 1, 1 << (n - 1)] {
+                out.push(sh0.iter().enumerate().map(|(i, &x)| if x == 0 && pat >> i & 1 == 1 { neg_zero(k) } else { x }).collect());
+            }
+        }
         // tenths: finite values whose shortest decimal text is not an exact binary fraction
         out.push((1..=n as u64).map(|i| if k.bits == 32 { (i as f32 * 0.1).to_bits() as u64 } else { (i as f64 * 0.1).to_bits() }).collect());
     } else {
